@@ -7,7 +7,7 @@ import numpy as np
 C_MININEC = 299.8   # the code's speed of light in Mm/s: wavelength = 299.8 / f[MHz]
 
 BASE5 = [(0, 0, 0), (1, 0, 0), (0, 1.1, 0), (0, 0, 0.9), (1, 1.1, 0.9)]
-BASE7 = BASE5 + [(1, 0, 0.9), (0.5, 1.1, 0.45)]
+BASE7 = BASE5 + [(1, 0, 0.9), (0.55, 0.3, 0.6)]      # no three points collinear (a wire on top of another is degenerate)
 GND5 = [(0, 0, 0), (1, 0.2, 0), (0.1, 0.3, 0.8), (0.9, 1.0, 0.7), (0.2, 1.2, 1.4)]
 GND7 = GND5 + [(1.0, 0.1, 1.5), (0.5, 0.7, 0.0)]
 
